@@ -32,11 +32,16 @@ pub struct Config {
     pub max_decisions: usize,
     /// parallel calls with fewer items than this run inline
     pub min_items: usize,
+    /// count a switch to another worker at a task boundary (while the current worker could take
+    /// the next item) as a deviation too, like a preemption.  Keeps the search space polynomial
+    /// for calls with many small tasks; the bound then is a bound on deviations from "one worker
+    /// does everything".
+    pub count_task_switches: bool,
 }
 
 impl Default for Config {
     fn default() -> Self {
-        Config { workers: 2, choose_items: false, max_decisions: 20_000, min_items: 2 }
+        Config { workers: 2, choose_items: false, max_decisions: 20_000, min_items: 2, count_task_switches: false }
     }
 }
 
@@ -207,7 +212,7 @@ impl Exec {
                 return g;
             }
             let me_enabled = match me {
-                Some(m) => cands[0] == m && matches!(g.w[m], WStatus::Parked { .. }),
+                Some(m) => cands[0] == m && (self.cfg.count_task_switches || matches!(g.w[m], WStatus::Parked { .. })),
                 None => false,
             };
             let k = self.choose(&mut g, cands.len(), !me_enabled, Kind::Worker);
@@ -753,5 +758,26 @@ mod tests {
         });
         assert!(r.is_err());
         assert_eq!(t.abort, Some(Abort::Horizon));
+    }
+}
+
+#[cfg(test)]
+mod api_tests {
+    use crate::iter::min_len_leaves;
+    use crate::prelude::*;
+
+    #[test]
+    fn min_len_splitting() {
+        assert_eq!(min_len_leaves(16, 8), vec![0..8, 8..16]);
+        assert_eq!(min_len_leaves(15, 8), vec![0..15]);
+        assert_eq!(min_len_leaves(32, 8).len(), 4);
+        assert_eq!(min_len_leaves(5, 1).len(), 5);
+        let v: Vec<usize> = (0..20usize).into_par_iter().with_min_len(8).map(|i| i * 2).collect();
+        assert_eq!(v, (0..20).map(|i| i * 2).collect::<Vec<_>>());
+        let w: Vec<(usize, usize)> = vec![5usize, 6, 7].into_par_iter().enumerate().filter(|(i, _)| i % 2 == 0).collect();
+        assert_eq!(w, vec![(0, 5), (2, 7)]);
+        assert_eq!((0..10usize).into_par_iter().filter_map(|i| if i % 3 == 0 { Some(i) } else { None }).sum::<usize>(), 18);
+        assert!((0..10usize).into_par_iter().any(|i| i == 7) && !(0..10usize).into_par_iter().all(|i| i < 9));
+        assert_eq!([1, 2, 3].par_iter().cloned().reduce(|| 0, |a, b| a + b), 6);
     }
 }
